@@ -5,7 +5,7 @@ comparison (tty-ness, COLUMNS, ASLR, heap fill, environment size, descriptors)."
 import re
 
 from sim.orch import CheckBase, Outcome
-from sim import dfswork
+from sim import dfswork, fluxwork
 from sim.models import dfsdisc as dd
 from checks import c07
 
@@ -33,8 +33,8 @@ def tokenise_cat(stdout):
     for key, rx in (('drive', r'Drive (\S+)'), ('option', r'Option (\d \(\w+\))'), ('dir', r'Dir(?:\.|ectory) (:\S+)'), ('lib', r'Lib(?:\.|rary) (:\S+)')):
         m = re.search(rx, h)
         fields[key] = m.group(1) if m else None
-    m = re.search(r'\b([A-H.]{8})\b', h)
-    fields['subvols'] = m.group(1) if (m and 'density' in h.lower() and re.search(r'[A-H]', m.group(1)) and '.' in m.group(1) or (m and m.group(1) == 'ABCDEFGH')) else None
+    # style-specific extras (the Opus volume-letter summary, Watford's file count and work file) are layout of that style,
+    # not catalogue content common to all styles, and are not compared (DESIGN.md A.6)
     entries = []
     for ln in body:
         if re.match(r'^\d+ files of \d+ on \d+ tracks$', ln.strip()) or ln.strip() == 'No file':
@@ -72,7 +72,7 @@ class C18(CheckBase):
         return 600 if tier == 'quick' else 5400
 
     def gen_case(self, rng, tier, index):
-        src = rng.weighted([(8, 'generated'), (3, 'flux'), (3, 'damaged')])
+        src = rng.weighted([(8, 'generated'), (3, 'flux'), (3, 'damaged'), (4, 'genflux')])
         case = {}
         if src == 'generated':
             image = dfswork.gen_image(rng)
@@ -80,6 +80,11 @@ class C18(CheckBase):
         elif src == 'flux':
             base = rng.choice(c07.FLUX_BASES)
             image = {'flux_base': base, 'ext': 'hfe' if '.hfe' in base else 'mfm'}
+            ops = []
+        elif src == 'genflux':
+            fc, dmg = fluxwork.gen_hostile_flux(rng, sides=1)
+            surfaces = [dd.gen_surface(rng, variant='acorn', geom=(fc['tracks'], fc['spt']), img_id=8, side=0).to_json()]
+            image = {'genflux': fc, 'surfaces': surfaces, 'damage': dmg, 'ext': 'mfm' if fc['container'] == 'mfm' else 'hfe'}
             ops = []
         else:
             if rng.chance(0.6):
@@ -136,7 +141,7 @@ class C18(CheckBase):
         name, data = c07.CHECK.materialise({'image': case['image'], 'ops': case['ops'], 'gz': 'valid' if case['gz'] else None, 'gz_ops': []})
         sb.reset({name: data})
         exe = ctx.exe('rel', 'dfs')
-        src = 'flux' if 'flux_base' in case['image'] else 'generated'
+        src = 'flux' if 'flux_base' in case['image'] else ('genflux' if 'genflux' in case['image'] else 'generated')
         if case['ops']:
             src += '-damaged'
 
